@@ -29,7 +29,7 @@ UNIT_TRUSTED["daemon_gr"] = [
 
 UNIT_TRUSTED["daemon_peer_tx"] = [
     "prelude p_peer_tx: packet::Nlri / Attribute / Nexthop opaque, PathNlri transparent; derive(PartialEq) on Nlri is structural equality; (u32,u32) obeys the hash key model",
-    "NOT under contract: PendingTx::drain_messages and buffer_messages (hashbrown drain / Entry / by-value map iteration are outside Verus's dialect; CBMC does not terminate on hashbrown) — that a drain emits every queued withdrawal before the announcements is unverified",
+    "drain_messages: the two hash-map drains are outlined (R11, contracts assumed): `entries.extend(unreach.drain().map(..))` empties the map and appends one PathNlri per entry; the drain-and-group loop over `reach` (entry().or_default().push) empties the map and returns the entries grouped by (attributes, next hop), every entry in exactly its group; std::mem::take on a Vec returns it and leaves an empty one; Message::eor(f) = Update(EndOfRib(f)); bgp::Update mirrored transparently in this unit",
     "process_nlri_change (the diff of the exportable window against what was sent) is under contract in unit daemon_export (see its trusted base); NOT under contract: ExportMap's hashbrown internals (set model assumed), GroupedSink / AdjOutSink (other NlriSink implementations)",
     "A-C01-1: one serialised stream of NlriChange per session (shard locks, channels, select loop)",
     "A-C01-2: a queued announcement is cancelled only by the withdrawal of the same prefix (precondition of PendingTx::unreach)",
@@ -110,7 +110,7 @@ UNIT_TRUSTED["packet_encode"] = [
 ]
 
 # minimum number of functions that must produce obligations / of must-fail twins that must run
-FLOORS = {"daemon_fsm": 30, "daemon_gr": 4, "daemon_peer_tx": 7, "table_cmp": 20, "packet_validate": 1, "packet_parse": 1, "table_rpki": 3, "table_policy": 6, "daemon_export": 11, "packet_bmp": 6, "packet_mrt": 8, "packet_aspath": 8, "packet_encode": 4}
+FLOORS = {"daemon_fsm": 30, "daemon_gr": 4, "daemon_peer_tx": 9, "table_cmp": 20, "packet_validate": 1, "packet_parse": 1, "table_rpki": 3, "table_policy": 6, "daemon_export": 11, "packet_bmp": 6, "packet_mrt": 8, "packet_aspath": 8, "packet_encode": 4}
 TWIN_FLOORS = {"daemon_fsm": 8, "daemon_gr": 3, "daemon_peer_tx": 2, "table_cmp": 4, "packet_validate": 1, "packet_parse": 1, "table_rpki": 1, "table_policy": 1, "daemon_export": 1, "packet_bmp": 1, "packet_mrt": 1, "packet_aspath": 1, "packet_encode": 1}
 
 PLAN = {
